@@ -134,9 +134,15 @@ def assignCastsH : Handler := fun j => do
   let r := assignCasts (← bool (← field j "fixed")) b
   return jList (fun e => Json.arr #[jList jNat e.1, jNat e.2.1, jList jNat e.2.2]) r
 
+/-- args: {"shape": [nat|null], "rt": [nat]} -> {"dims": [nat], "alloc": [nat]} -/
+def standInH : Handler := fun j => do
+  let shape ← listOf (optOf nat) (← field j "shape")
+  let rt ← listOf nat (← field j "rt")
+  return Json.mkObj [("dims", jList jNat (dynIdx shape 0)), ("alloc", jList jNat (standInShape shape rt))]
+
 def handlers : List (String × Handler) :=
   [("c12.transformConstant", transformConstantH), ("c12.transposeTuple", transposeTupleH),
    ("c12.memspace", memspaceH), ("c12.realize", realizeH), ("c12.chk", chkH), ("c12.syntactic", syntacticH),
-   ("c12.assignCasts", assignCastsH)]
+   ("c12.assignCasts", assignCastsH), ("c12.standIn", standInH)]
 
 end SnaxVerif.Drv.C12
